@@ -4,6 +4,7 @@ import json
 from harness.props.c09 import _Names, _canon, _kids_desc
 from harness.universes import runs
 from harness.universes import words_ext as W
+from harness.universes import words_onefactor as OF
 
 ID = "C01"
 TITLE = "returned specifications count the start class correctly"
@@ -88,7 +89,10 @@ def _gen_stats(rng):
     add = 0
     if rng.random() < 0.3:
         stats, add = stats[: rng.randint(0, 1)], 1     # AddStat in the pack: statistics appear along a path
-    return {"kind": "stats", "cls": [prefix, pats, alph, stats], "add": add, "ruledb": "base", "pack": "stats"}
+    case = {"kind": "stats", "cls": [prefix, pats, alph, stats], "add": add, "ruledb": "base", "pack": "stats"}
+    if stats != sorted(stats) and rng.random() < 0.6:
+        case["of1"] = 1     # + words_onefactor.SortStats: a one-factor product that renames the parameters
+    return case
 
 
 def gen(rng, tier):
@@ -96,7 +100,7 @@ def gen(rng, tier):
         if rng.random() < 0.12:
             yield _gen_stats(rng)
             continue
-        c = W.random_cfg(rng)
+        c = OF.maybe_onefactor(rng, W.random_cfg(rng))   # 13%: a pack with one-factor products (fix 25e10f1)
         c["kind"] = "word"
         yield c
 
@@ -207,7 +211,7 @@ def _stats_search(case):
 
     p, pats, alph, stats = case["cls"]
     try:
-        return c08_stats.stat_spec(p, pats, alph, stats, add=bool(case.get("add")))
+        return (OF if case.get("of1") else c08_stats).stat_spec(p, pats, alph, stats, add=bool(case.get("add")))
     except SpecificationNotFound:
         return None
 
@@ -256,6 +260,7 @@ def impl(case):
         spec.root, "extra_parameters", ()) else [spec.count_objects_of_size(n) for n in range(NMAX + 1)]
     out["root_truth"] = [sum(1 for _ in spec.root.objects_of_size(n)) for n in range(NMAX + 1)]
     out["nrules"] = len(classes)
+    out["onefactor"] = OF.onefactor_census(spec)
     return out
 
 
@@ -301,10 +306,18 @@ def classify(case, res):
     tags = ["db=" + case["ruledb"], "pack=" + case["pack"], "found" if res.get("found") else "no_spec"]
     if case["kind"] == "stats":
         tags.append("statistics: %d tracked by the start class%s" % (len(case["cls"][3]), ", added along a path" if case.get("add") else ""))
+    if case.get("of1"):
+        tags.append("statistics listed in order by a one-factor product (SortStats)")
     forms = {d[0] for d in res.get("descs", [])}
     for f, name in ((2, "complement"), (3, "quotient"), (4, "equiv"), (5, "equiv_of_reverse"), (6, "path")):
         if f in forms:
             tags.append("has_" + name)
+    # product rules with a single factor (fix 25e10f1): steps of an equivalence path, forwards (CartesianProduct with
+    # one child) / backwards (Quotient with one child), or lone rules of form 1 / 3
+    for k, name in (("path_fwd", "one-factor-product in a path"), ("path_rev", "one-factor-product-reverse in a path"),
+                    ("lone_fwd", "one-factor-product lone"), ("lone_rev", "one-factor-product-reverse lone")):
+        if res.get("onefactor", {}).get(k):
+            tags.append(name)
     return tags
 
 
